@@ -308,6 +308,9 @@ class C08(Prop):
                                          'watches': st.lists(TEXT, max_size=2)}),
             'ts': st.integers(0, 2 ** 63 - 1), 'duration': st.integers(0, 2 ** 62),
             'frames': st.lists(frame, max_size=3),
+            # the same call site several times on the stack (recursion through an inherited method): frames that agree in
+            # file, function and line and differ in the class of self, none of them carrying variables
+            'twins': st.sampled_from([0, 0, 0, 2, 3]),
             'vars': st.dictionaries(st.sampled_from(['1', '2', '3', '10']), variable, max_size=4),
             'watches': st.lists(watch, max_size=3),
             'attributes': st.dictionaries(st.sampled_from(['a', 'b', 'c']), ATTR_VALUE, max_size=3),
@@ -422,6 +425,12 @@ class C08(Prop):
                              [mk_vid(v) for v in f['variables']], f['class_name'], f['is_async'], f['column_number'],
                              f['transpiled_file_name'], f['transpiled_line_number'], f['transpiled_column_number'],
                              f['app_frame']) for f in r['frames']]
+        if r.get('twins') and r['frames']:
+            f = r['frames'][0]
+            frames = frames + [StackFrame(f['file_name'], f['short_path'], f['method_name'], f['line_number'], [],
+                                          'Class%d' % i, f['is_async'], f['column_number'], f['transpiled_file_name'],
+                                          f['transpiled_line_number'], f['transpiled_column_number'], f['app_frame'])
+                               for i in range(r['twins'])]
         lookup = {k: Variable(v['type'], v['value'], v['hash'], [mk_vid(c) for c in v['children']], v['truncated'])
                   for k, v in r['vars'].items()}
         snap = EventSnapshot(tp, r['ts'], Resource(dict(r['resource'])), frames, lookup)
